@@ -161,6 +161,49 @@ def index_loops(fn):
     return res
 
 
+def table_rows(fn, call):
+    """a call made once per row of a local table (for (i = 0; i < N; i++) f(t[i].a, t[i].b)): the argument expressions of each of the N
+    calls this stands for, with t[i].x replaced by what was stored into t[k].x before the loop.  None if the call does not read its
+    arguments from such a table; AnalysisBroken-free: the caller decides what an incomplete table means."""
+    args = [vf.expr(fn, a) for a in call.args]
+
+    def tab(e):
+        if e[0] == "load" and e[1][0] == "fld" and e[1][1][0] == "idx" and e[1][1][1][0] == "alloca" and e[1][1][2][0] == "phi":
+            return e[1][1][1], e[1][1][2], e[1][2:]
+        return None
+    hits = [tab(e) for e in args if tab(e)]
+    if not hits or len({(h[0], h[1]) for h in hits}) != 1:
+        return None
+    A, P = hits[0][0], hits[0][1]
+    L = [l for l in index_loops(fn) if ("phi", l["phi"].id) == P and in_loop_body(l, call)]
+    if not L or L[0]["init"] != "#0" or L[0]["bound"][0] != "c":
+        return None
+    nrows = L[0]["bound"][1]
+    cells = {}
+    for i in fn.all_insts():
+        if i.op == "store":
+            pe = vf.expr(fn, i["ptr"])
+            if pe[0] == "fld" and pe[1][0] == "idx" and pe[1][1] == A:
+                if pe[1][2][0] != "c" or not fn.dom(i, call) or i.block.id in L[0]["body"] or (pe[1][2][1], pe[2:]) in cells:
+                    return None
+                cells[(pe[1][2][1], pe[2:])] = vf.expr(fn, i["val"])
+        elif i.op == "call" and (i.callee or "").startswith("llvm.mem") and vf.root_of(vf.expr(fn, i.args[0])) == A:
+            return None
+    rows = []
+    for k in range(nrows):
+        row = []
+        for e in args:
+            t = tab(e)
+            if t:
+                if (k, t[2]) not in cells:
+                    return None
+                row.append(cells[(k, t[2])])
+            else:
+                row.append(e)
+        rows.append(row)
+    return rows
+
+
 def in_loop_body(loop, inst):
     return inst.block.id in loop["body"]
 
